@@ -1,7 +1,8 @@
 (* Extraction of the executable C19 model (ExtrOcamlBasic only). *)
 From Coq Require Import ExtrOcamlBasic.
 From Coq Require Extraction.
-From LJT Require Import model.Huff.
+From LJT Require Import model.Huff model.HuffSym.
 Extraction Language OCaml.
 Extraction "x_c19.ml" nbits gen_optimal_table make_c_derived make_d_derived
-  encode_sym decode_lookahead decode_serial valid_table.
+  encode_sym decode_lookahead decode_serial valid_table
+  htest_one_block dc_first_symbol ac_first_mcu ac_refine_mcu emit_eobrun pstate0 lossless_symbol count_syms.
